@@ -21,6 +21,22 @@ namespace Eru.Misc.Sender
 
 abbrev Byte := Nat
 
+/-- the arguments of `VirtualizationCopyChunkTo` besides the content: every chunk message carries
+them (`types.SendLargeFileOptions{Dst, Size, Mode, UID, GID}`) -/
+structure CopyArgs where
+  dst : String
+  size : Nat
+  mode : Int
+  uid : Int
+  gid : Int
+  deriving Repr, DecidableEq
+
+/-- one message of the input stream as seen by one target -/
+structure Msg where
+  md : CopyArgs
+  chunk : List Byte
+  deriving Repr, DecidableEq
+
 structure Beh where
   missing : Bool
   limit : Option Nat
@@ -45,12 +61,13 @@ inductive CSt where
 
 structure Target where
   created : Bool := false                 -- the producer has created this sender (`wg.Add(1)`)
-  buf : List (List Byte) := []
+  buf : List Msg := []
   bufClosed : Bool := false
   snd : SSt := .recv
   cop : CSt := .none
   wClosed : Bool := false
   rClosed : Bool := false
+  args : Option CopyArgs := none          -- arguments of the engine call (taken from the first message)
   got : List Byte := []                   -- bytes the engine has read
   results : List Bool := []               -- messages sent on resp for this id (isErr)
   deriving Repr, DecidableEq
@@ -58,7 +75,7 @@ structure Target where
 def bufCap : Nat := 10
 
 /-- producer: `sender.send(chunk)` (blocks while the buffer is full) -/
-def Target.push (t : Target) (ch : List Byte) : Option Target :=
+def Target.push (t : Target) (ch : Msg) : Option Target :=
   if t.buf.length < bufCap then some { t with buf := t.buf ++ [ch], created := true } else none
 
 /-- producer: `close(buffer)` -/
@@ -70,7 +87,8 @@ def Target.sndStep (t : Target) : Option Target :=
   | .recv =>
     match t.buf with
     | m :: rest =>
-      some { t with buf := rest, snd := .write m true, cop := if t.cop = .none then .lock else t.cop }
+      some { t with buf := rest, snd := .write m.chunk true, cop := if t.cop = .none then .lock else t.cop,
+                    args := if t.cop = .none then some m.md else t.args }
     | [] => if t.bufClosed then some { t with snd := .exit, wClosed := true } else none
   | .write pending once =>
     if t.rClosed then some { t with snd := .drain, wClosed := true }       -- io.ErrClosedPipe
@@ -111,7 +129,7 @@ def Target.copStep (b : Beh) (t : Target) : Option Target :=
 
 /-- whole call -/
 structure State where
-  todo : List (Nat × List Byte)           -- remaining `senders[id].send(chunk)` calls (target index, chunk)
+  todo : List (Nat × Msg)                 -- remaining `senders[id].send(data)` calls (target index, message)
   closed : Bool                           -- buffers closed, producer in wg.Wait()
   ts : List Target
   deriving Repr, DecidableEq
@@ -149,10 +167,16 @@ def quiescent (s : State) : Bool := final s && s.ts.all fun t => t.snd = .exit |
 def actions (n : Nat) : List Action :=
   Action.prod :: ((List.range n).map Action.snd ++ (List.range n).map Action.cop)
 
-/-- `SendLargeFile` on the chunk messages `msgs`, each addressed to the (deduplicated) targets
-0..n-1: the producer's schedule of pushes -/
-def initState (n : Nat) (chunks : List (List Byte)) : State :=
-  { todo := chunks.flatMap fun ch => (List.range n).map fun i => (i, ch),
+/-- the per-message de-duplication of the target list (`seen` map in SendLargeFile, fix D21b):
+first occurrences, in order -/
+def dedup : List Nat → List Nat
+  | [] => []
+  | x :: r => x :: (dedup r).filter (· ≠ x)
+
+/-- `SendLargeFile` on the messages `msgs`, each addressed to the target list `ids` (indices into
+the `n` known targets, duplicates allowed): the producer's schedule of pushes -/
+def initState (n : Nat) (ids : List Nat) (msgs : List Msg) : State :=
+  { todo := msgs.flatMap fun m => (dedup ids).map fun i => (i, m),
     closed := false, ts := List.replicate n {} }
 
 /-- run with the scheduler "first enabled action" until nothing is enabled (fuel-bounded) -/
